@@ -1,11 +1,21 @@
 import Drivers.Wire
 import Model.Hypervolume
+import Model.HvRecorder
 
 /-! Driver for C12.
 `{"op":"hv","ref":[rat..],"pts":[[rat..]..],"want":["hv","fast","last","code","cells"],"order":[..]}`
-→ `{"ok":true,"hv":…,"fast":…,"last":…,"code":…|null,"cells":n}` (only the wanted keys). -/
+→ `{"ok":true,"hv":…,"fast":…,"last":…,"code":…|null,"cells":n}` (only the wanted keys).
+`{"op":"recorder","jobs":[null|[rat..]..],"patience":n,"threshold":rat|null}` (one `ObjectiveRecorder`
+/ `SearchEarlyStopping` pair driven through a stream of jobs, `null` = a failed job)
+→ `{"ok":true,"values":[null|rat..],"nlower":[n..],"stopped":[bool..]}` (`null` = `-inf`). -/
 
 open Lean DH.Wire DH.Hypervolume
+
+/-- `null` or a value -/
+def jOpt {α} (f : Json → Except String α) (x : Json) : Except String (Option α) :=
+  match x with
+  | Json.null => pure none
+  | x => do return some (← f x)
 
 def handle (j : Json) : Except String Json := do
   let op ← (← field j "op").getStr?
@@ -35,6 +45,18 @@ def handle (j : Json) : Except String Json := do
       let dims := ref.map (fun r => r.num.toNat)
       out := out ++ [("cells", Json.num (JsonNumber.fromNat (cellCount dims pts)))]
     return Json.mkObj out
+  | "recorder" =>
+    let jobs ← jList (jOpt (jList jRat)) (← field j "jobs")
+    let patience ← jNat (fieldD j "patience" (Json.num 1))
+    let threshold ← jOpt jRat (fieldD j "threshold" Json.null)
+    -- `recRunFast = recRun` is `C12_recorder_fast`
+    let values := recRunFast [] jobs
+    let states := stopRun patience threshold Stopper.init values
+    let opt := fun (v : Option Rat) => match v with
+      | some v => ofRat v
+      | none => Json.null
+    return Json.mkObj [("ok", true), ("values", Json.arr (values.map opt).toArray),
+      ("nlower", ofNats (states.map (·.nLower))), ("stopped", ofBools (states.map (·.stopped)))]
   | _ => throw s!"unknown op {op}"
 
 def main : IO Unit := serveFn handle
